@@ -1,3 +1,5 @@
 module github.com/goplus/llgo/runtime
 
 go 1.24
+
+require github.com/anishathalye/porcupine v1.3.0
